@@ -1,3 +1,6 @@
 // C14: static_vector<int, N> suites (one TU per element type so that the unit compiles in parallel)
 #include "c14.h"
 C14_SV_SUITES(int, int)
+// element types with mixed triviality (kept in this TU: static_vector<int> is the cheapest one to compile)
+C14_SV_MIXED_SUITES(c14::TrivAssign, trivassign)
+C14_SV_MIXED_SUITES(c14::TrivLife, trivlife)
